@@ -1024,6 +1024,8 @@ var engineCorpus = []corpusCase{
 		fn: map[string][]eFres{"aa": []eFres{{Content: "v", Set: []uint32{8}}}}, cfg: eCfg{FlagCount: 2}, inputs: []string{"", "7", "0", "2"}},
 	{name: "exit-exact-fit", nodes: [][3]string{{"root", "HALT; INCMP end1 1; INCMP end2 2; INCMP end3 3", "root"}, {"end1", "LOAD bye1 0; HALT", "bye"}, {"end2", "LOAD bye2 0; HALT", "bye"}, {"end3", "LOAD bye3 0; HALT", "bye"}, {"_catch", "HALT; INCMP _ *", "catch"}},
 		fn: map[string][]eFres{"bye1": st1(strings.Repeat("b", 26)), "bye2": st1(strings.Repeat("b", 27)), "bye3": st1(strings.Repeat("b", 28))}, cfg: eCfg{FlagCount: 1, Out: 30}, inputs: []string{"", "2", "", "1", "", "3"}},
+	{name: "percent-in-menu", nodes: [][3]string{{"root", "MOUT sale 1; MOUT salt 2; MOUT plain 3; MSINK; MNEXT nxt 11; MPREV prv 22; HALT; INCMP > 11; INCMP < 22; INCMP foo *", "root"}, {"foo", "MOUT sale 0; HALT; INCMP _ 0", "foo"}, {"_catch", "HALT; INCMP _ *", "catch"}},
+		menu: []kv{{"sale_menu", "20% sale"}, {"salt_menu", "salt %s and %d"}}, cfg: eCfg{FlagCount: 1, Out: 36}, inputs: []string{"", "11", "22", "x", "0"}},
 	{name: "abnormal-end", nodes: [][3]string{{"root", "HALT; INCMP foo 1", "root"}, {"foo", "LOAD aa 10", "foo"}, {"_catch", "HALT; INCMP _ *", "catch"}},
 		fn: map[string][]eFres{"aa": st1("v")}, cfg: eCfg{FlagCount: 2}, inputs: []string{"", "1", "", "1"}},
 	{name: "browse-past-end", nodes: [][3]string{{"root", "LOAD aa 0; MAP aa; MNEXT nxt 11; MPREV prv 22; HALT; INCMP > 11; INCMP < 22", "r {{.aa}}"}, {"_catch", "MOUT back 0; HALT; INCMP _ 0", "catch"}},
